@@ -26,6 +26,7 @@ THEOREMS = [
     "search_nodup",
     "search_dirs_nodup_of_unnested",
     "dotpath_correct",
+    "dotpath_injective_on_plain_modules",
     "dotdot_filter_keeps_plain_modules",
     "init_module_is_package",
 ]
